@@ -17,6 +17,7 @@ import GlareModel.Core.Plain
 import GlareModel.Core.Proto
 import GlareModel.Core.ExecStack
 import GlareModel.Core.Directory
+import GlareModel.Core.Varint
 
 /-! `gmodel`: line-protocol driver. Reads `case <n> <component> ...` lines on stdin and
 prints `out <n> ...` lines computed by the code-shaped model. -/
@@ -375,6 +376,18 @@ def runLayout (args : List String) : String :=
     s!"v={l.validityWidth} w={l.rowWidth} o={os}"
   | _ => "bad-case"
 
+/-- `case N varint <b1,b2,..|->`: the thrift compact reader's `read_i64` (varint + zig-zag). -/
+def runVarint (args : List String) : String :=
+  match args with
+  | [bs] =>
+    let bytes := if bs == "-" then [] else (bs.splitOn ",").filterMap String.toNat?
+    match Varint.readVlq true bytes with
+    | .ok v n =>
+      let z : Int := if v % 2 == 0 then (v / 2 : Nat) else -((v / 2 : Nat) : Int) - 1
+      s!"ok {z} {n}"
+    | _ => "err"
+  | _ => "bad-case"
+
 /-- `case N directory <n1:g1,..|->`: capacity and occupancy of the aggregate directory after every batch. -/
 def runDirectory (args : List String) : String :=
   match args with
@@ -464,6 +477,7 @@ def step (line : String) : Option String :=
   | "case" :: n :: "layout" :: args => some s!"out {n} {runLayout args}"
   | "case" :: n :: "execstack" :: args => some s!"out {n} {runExecStack args}"
   | "case" :: n :: "directory" :: args => some s!"out {n} {runDirectory args}"
+  | "case" :: n :: "varint" :: args => some s!"out {n} {runVarint args}"
   | "case" :: n :: "footer" :: args => some s!"out {n} {runFooter args}"
   | "case" :: n :: "unify" :: args => some s!"out {n} {runUnify args}"
   | "case" :: n :: "tok" :: args => some s!"out {n} {runTok args}"
